@@ -12,7 +12,7 @@ func TestC01Step(t *testing.T) {
 	if len(allEncodings) != 930 {
 		t.Fatalf("HARNESS: model implements %d encodings, expected 930", len(allEncodings))
 	}
-	p := newStepProp("C01", eng.KState, eng.KFlags, eng.KMemImg, eng.KPortOut, eng.KInvalid)
+	p := newStepProp("C01", eng.KState, eng.KIff, eng.KFlags, eng.KMemImg, eng.KPortOut, eng.KInvalid)
 	p.col.Sub = "step"
 	defer finish(t, p.col)
 	p.col.Rule = "step: every implemented encoding (930, enumerated) x rapid-drawn pre-state (edge-biased registers, all F, IFF/IM/I/R/HALT), " +
